@@ -278,6 +278,7 @@ def gen_config(cs, tier='quick', force=None):
     # whatever that leaves behind in the parent is inherited by the workers forked for the run under test
     c['pre_run'] = [None, None, None, 1, 2, 3][cs.choose(6, 'pre_run')]
     c['pre_same_out'] = cs.choose(2, 'pre_same_out') == 1      # the earlier run wrote to the very same result file
+    c['settings_out'] = [0, 0, 0, 0, 0, 0, 1, 2][cs.choose(8, 'settings_out')]   # MC_OUTPUT_FILE line (1: alone, 2: plus another path on the command line)
     # sometimes a second, independent Monte-Carlo driver process runs at the same time on the same machine (same temp
     # directory, a base input file with the same name in another project directory, its own settings and result file)
     c['second_driver'] = cs.choose(5, 'second_driver') == 4
@@ -306,7 +307,7 @@ def gen_config(cs, tier='quick', force=None):
             sp[i] = [1.0, 2.0, 4.0][cs.choose(3, 'speed')]
     c['speeds'] = sp
     c['pid_gap'] = [0, 0, 7, 40][cs.choose(4, 'pid_gap')]
-    c['spelling'] = [0, 0, 1, 2, 3][cs.choose(5, 'spelling')]
+    c['spelling'] = [0, 0, 1, 2, 3, 4][cs.choose(6, 'spelling')]
     c['out_name'] = ['MC_Result.txt', 'MC_Result.txt', 'mc.result.v2.txt', 'RESULT', 'r.out', 'out.d/res.txt'][cs.choose(6, 'out_name')]
     c['clock0'] = cs.choose(1000, 'clock0s') + cs.choose(1000, 'clock0ms') / 1000.0
     c['faults'] = []
@@ -346,6 +347,14 @@ def _base_value(text, name):
     return None
 
 
+def _sci(a):
+    for p in range(1, 18):
+        s_ = f'{a:.{p}e}'
+        if float(s_) == a:
+            return ('+' if a > 0 else '') + s_.replace('e', 'E')
+    return repr(a)
+
+
 def settings_text(c):
     """the settings file, in one of several spellings that the pinned parser treats alike: padded with blanks and tabs, with
     words after the distribution name ('uniform distribution'), integral arguments written as integers, the three kinds of
@@ -357,6 +366,9 @@ def settings_text(c):
         args = [repr(a) if isinstance(a, float) else str(a) for a in i['args']]
         if sp in (2, 3):
             args = [str(int(a)) if isinstance(a, float) and a == int(a) and abs(a) < 1e15 else s_ for a, s_ in zip(i['args'], args)]
+        if sp == 4:
+            # scientific notation and explicit signs: every spelling float() accepts is a legal argument
+            args = [_sci(a) if isinstance(a, float) else ('+' + s_ if i['dist'] != 'binomial' else s_) for a, s_ in zip(i['args'], args)]
         if i.get('hash_arg') is not None:
             args[i['hash_arg']] = '#'
         dist = i['dist'] + (' distribution' if sp == 2 else '')
@@ -418,7 +430,7 @@ def run_one(payload):
         with open(inp, 'w') as f:
             f.write(base_text(c))
         with open(stg, 'w') as f:
-            f.write(settings_text(c))
+            f.write(settings_text(c) + (f'MC_OUTPUT_FILE, {out}\n' if c.get('settings_out') else ''))
         simcfg = dict(delay_table=c['delay_table'], compute_table=c['compute_table'], cpu_count=c['W'],
                       speeds={int(k_): v for k_, v in c['speeds'].items()},
                       stalls={int(k_): v for k_, v in c.get('stalls', {}).items()},
@@ -463,9 +475,20 @@ def run_one(payload):
                 # only the run under test is analysed
                 k.marks = {'notes': len(k.notes), 'pools': len(k.pools)}
             try:
-                GeophiresMonteCarloClient().get_monte_carlo_result(MonteCarloRequest(prog, Path(inp), Path(stg), Path(out)))
+                if c.get('settings_out'):
+                    # the documented MC_OUTPUT_FILE line of the settings file takes precedence over the command-line argument;
+                    # the client does not know about it, so the driver is called directly, as `python -m geophires_monte_carlo` does
+                    from geophires_monte_carlo import MC_GeoPHIRES3
+                    cwd0 = os.getcwd()
+                    try:
+                        MC_GeoPHIRES3.main(command_line_args=[str(prog.code_file_path), inp, stg]
+                                           + ([os.path.join(work, 'cmdline_out.txt')] if c['settings_out'] == 2 else []))
+                    finally:
+                        os.chdir(cwd0)
+                else:
+                    GeophiresMonteCarloClient().get_monte_carlo_result(MonteCarloRequest(prog, Path(inp), Path(stg), Path(out)))
                 outcome['main'] = 'ok'
-            except RuntimeError as e:
+            except Exception as e:  # noqa: BLE001  (called directly, the driver raises whatever it raises)
                 outcome['main'] = 'raised'
                 outcome['msg'] = str(e)[:300]
             outcome['cwd_after'] = os.getcwd()
